@@ -44,6 +44,29 @@ def main():
     names = re.findall(r'^\+\s*(?:pub\s+)?(?:async\s+)?fn\s+(\w+)\s*\(', open(demo).read(), re.M)
     tests = [n for n in names if True]
     meta['demo_tests'] = tests
+    # B. detection
+    rc, out = sh('git -C %s status --porcelain' % REPO)
+    assert out.strip() == '', '/repo is not clean'
+    open('/tmp/verif_repo_patched.lock', 'w').write(sid)
+    os.environ['VERIF_SEED_EVAL'] = '1'
+    rc, out = sh('git -C %s apply %s' % (REPO, patch))
+    assert rc == 0, out
+    det = {}
+    try:
+        for c in checks:
+            t0 = time.time()
+            rc, out = sh('./check %s' % c, cwd=VERIF, timeout=7200)
+            lines = [l for l in out.split('\n') if l.startswith('VIOLATION') or l.startswith('UNDECIDED') or l.startswith('OK ') or 'failed obligation' in l]
+            det[c] = {'exit': rc, 'wall_s': round(time.time() - t0, 1), 'lines': lines[:8]}
+    finally:
+        sh('git -C %s checkout -- .' % REPO)
+        try:
+            os.remove('/tmp/verif_repo_patched.lock')
+        except OSError:
+            pass
+    meta['detection'] = det
+    meta['detected_by'] = [c for c, v in det.items() if v['exit'] == 1]
+    print('detection done:', json.dumps(det)[:600], flush=True)
     if '--skip-confirm' not in sys.argv:
         sh('git -C %s worktree remove --force %s' % (REPO, WT))
         rc, out = sh('git -C %s worktree add --detach %s HEAD' % (REPO, WT))
@@ -69,22 +92,6 @@ def main():
         finally:
             sh('git -C %s worktree remove --force %s' % (REPO, WT))
             shutil.rmtree(WT, ignore_errors=True)
-    # B. detection
-    rc, out = sh('git -C %s status --porcelain' % REPO)
-    assert out.strip() == '', '/repo is not clean'
-    rc, out = sh('git -C %s apply %s' % (REPO, patch))
-    assert rc == 0, out
-    det = {}
-    try:
-        for c in checks:
-            t0 = time.time()
-            rc, out = sh('./check %s' % c, cwd=VERIF, timeout=7200)
-            lines = [l for l in out.split('\n') if l.startswith('VIOLATION') or l.startswith('UNDECIDED') or l.startswith('OK ') or 'failed obligation' in l]
-            det[c] = {'exit': rc, 'wall_s': round(time.time() - t0, 1), 'lines': lines[:8]}
-    finally:
-        sh('git -C %s checkout -- .' % REPO)
-    meta['detection'] = det
-    meta['detected_by'] = [c for c, v in det.items() if v['exit'] == 1]
     dst = os.path.join(VERIF, 'seeded', sid)
     os.makedirs(dst, exist_ok=True)
     for f in ('patch.diff', 'demo.diff', 'README.md'):
